@@ -21,6 +21,8 @@ def _stats_paths(ck, kind, cls, init, overwrite, nchains):
         obs = api.observable_instances(it, prog)
         if kind == "observable":
             recv = obs["SigmaZ"]
+        elif kind == "system-same-name":
+            recv = it.instantiate(prog.cls("System"), [obs["SigmaZ"], obs["SigmaZ/absolute"]], {}, None)  # two observables, one name
         else:
             recv = it.instantiate(prog.cls("System"), [obs["SigmaZ"], obs["SigmaX"]], {}, None)
         kw = {"burn_in": api.intsym("burn_in", pos=False), "steps": api.intsym("steps", pos=False)}
@@ -125,6 +127,18 @@ def run(ck):
                         continue
                     for p in rets:
                         _check_driver(ck, inst, ssite, p, owner, init, ow, nch)
+    # "any set of observables": two different observables may carry the same name (SigmaZ() and SigmaZ(absolute=True) do);
+    # each must still be evaluated on every draw, and reported
+    ssite = prog.method("System", "statistics").site()
+    inst = "System.statistics/two observables with the same name"
+    with ck.guard("C13.R4", inst, ssite):
+        for p in [q for q in _stats_paths(ck, "system-same-name", "PositiveWaveFunction", False, False, "sym") if q.outcome == "return"]:
+            it = p.interp
+            sfs = [c for c in it.calls if c[0] == "ObservableBase.statistics_from_samples"]
+            recvs = {id(c[1][0].inst) for c in sfs if c[1] and isinstance(c[1][0], VObj)}
+            ck.check(len(recvs) == 2, "C13.R4", inst + ":every observable given is evaluated [%s]" % path_tag(p), prog.cls("System").find_method("__init__").site(),
+                     "System(SigmaZ(), SigmaZ(absolute=True)) evaluates %d of the 2 observables: observables are kept in a dictionary keyed by their name, a second observable with the same name "
+                     "replaces the first, which gets no result (and the entry under its name is the other observable's)" % len(recvs), key="C13.R4|System|same-name observables dropped")
     ck.require_min("C13.R1", 16)
     ck.require_min("C13.R2", 32)
     ck.require_min("C13.R3", 8)
